@@ -30,13 +30,14 @@ def m_c02(sc, res):
             continue
         at = op.get("at", "")
         wr = written_by_hist(io_, at)
-        if at in wr:
-            patterns = wr[at][0][1]["ignore"]
-        else:
-            # nothing written for the command's own history: legitimate only when -sf selected no file at all
-            hb = O.histories(io_["asc_before"])
-            prev = O.parse_manifest_bytes(hb[at]["gens"][-1][2])["ignore"] if at in hb and hb[at]["gens"] else [".DS_Store", "ascmhl", "ascmhl/"]
-            patterns = list(prev) + [x for x in list(op.get("i", [])) + list(op.get("ii", [])) if x not in prev]
+        # the effective patterns by the rule of C12 (not what the run wrote): the list of the latest earlier generation in
+        # its order, then the new ones (-i, then the lines of the -ii file) without duplicates
+        hb = O.histories(io_["asc_before"])
+        prev = O.parse_manifest_bytes(hb[at]["gens"][-1][2])["ignore"] if at in hb and hb[at]["gens"] else [".DS_Store", "ascmhl", "ascmhl/"]
+        patterns = list(prev)
+        for x in list(op.get("i", [])) + list(op.get("ii", [])):
+            if x not in patterns:
+                patterns.append(x)
         media = io_["media_after"]
         vis = O.visible(media, at, patterns)  # relative to at
         roots = O.history_roots(io_["asc_before"]) | {at}
